@@ -79,7 +79,7 @@ def check(case):
                 el = [f"{vn}[{i}]" for i in range(vec.size)]
                 if all(e in vals for e in el):
                     want = np.array([vals[e] for e in el])
-                    for tag, h, w in (("whole", vec, want), ("reversed", vec[::-1], want[::-1]),
+                    for tag, h, w in (("whole", vec, want), ("fullslice", vec[:], want), ("reversed", vec[::-1], want[::-1]),
                                       ("slice", vec[1:], want[1:]) if vec.size > 1 else ("whole2", vec[:], want),
                                       ("strided", vec[::2], want[::2])):
                         got = sol[h]
@@ -91,7 +91,9 @@ def check(case):
                 if all(e in vals for row in el for e in row):
                     want = np.array([[vals[e] for e in row] for row in el])
                     for tag, h, w in (("whole", mat, want), ("T", mat.T, want.T), ("row", mat[0, :], want[0, :]),
-                                      ("col", mat[:, -1], want[:, -1]), ("sub", mat[0:1, :], want[0:1, :])):
+                                      ("row-reversed", mat[0, ::-1], want[0, ::-1]), ("col", mat[:, -1], want[:, -1]),
+                                      ("col-first", mat[:, 0], want[:, 0]), ("sub", mat[0:1, :], want[0:1, :]),
+                                      ("sub-shifted", mat[0:1, ::-1], want[0:1, ::-1])):
                         got = sol[h]
                         if not isinstance(got, np.ndarray) or got.shape != w.shape or not np.array_equal(got, w):
                             return Result.violation(f"matrix-handle:{tag}", f"s[{mn} {tag}]={got!r}, expected {w!r}; {desc}", classes)
